@@ -351,12 +351,12 @@ func Build(f Frame) qframe.QFrame {
 
 // Shapes are the ways a logical frame is physically realised.
 const (
-	ShapeIdentity = iota
-	ShapeReversed // physical rows reversed, restored by Sort on a key column
-	ShapeSliced   // junk rows before and after, removed by Slice
-	ShapeSparse   // junk rows interleaved, removed by Filter
-	ShapePermuted // physical rows rotated, restored by Sort on a key column
-	ShapeMidSwap  // first and last row stay in place, the rows between them are stored in reverse order (restored by Sort)
+	ShapeIdentity   = iota
+	ShapeReversed   // physical rows reversed, restored by Sort on a key column
+	ShapeSliced     // junk rows before and after, removed by Slice
+	ShapeSparse     // junk rows interleaved, removed by Filter
+	ShapePermuted   // physical rows rotated, restored by Sort on a key column
+	ShapeMidSwap    // first and last row stay in place, the rows between them are stored in reverse order (restored by Sort)
 	ShapeSparsePerm // junk rows interleaved AND the kept rows stored in reverse order (Filter, then Sort)
 	NShapes
 )
